@@ -4,7 +4,9 @@ import Driver.Util
 /-! Line-protocol driver for C04: `C04 <op> <args...>` -> one observable line.
 
   ops
-    rt  <cls> <shape> <A> <hdr> <matmode>     save/load round trip of class <cls>
+    rt  <cls> <shape> <A> <hdr> <matmode> <flips>   save/load round trip of class <cls>
+          <hdr>   = `-` | <spec> | <srccls>@<spec>   (header of class <srccls> handed to the constructor)
+          <flips> = three of T/F: header.default_x_flip at construction, at save, on the loading class
     hq  <cls> <A> <code>                        header.set_qform(A, code); get_qform(coded=True)
     hs  <cls> <A> <code>                        header.set_sform(A, code); get_sform(coded=True)
     fp  <cls> <b,c,d>                           header.get_qform_quaternion(): ERR / w0 / wpos
@@ -123,55 +125,135 @@ def parseAHdr? (shape : List Nat) (s : String) : Option (Option AHdr) :=
     else none
   | _ => none
 
-/-- MGH header spec: `-` or `a=<A>` (header of `MGHImage(data, A)`) -/
+def parseMode? (s : String) : Option MatMode :=
+  if s = "both" then some .both else if s = "monly" then some .mOnly else if s = "none" then some .none
+  else if s = "matonly" then some .matOnly else if s = "mat3d" then some .mat3d
+  else none
+
+def parseFlips? (s : String) : Option Flips :=
+  let b? (c : Char) : Option Bool := if c = 'T' then some true else if c = 'F' then some false else none
+  match s.toList with
+  | [a, b, c] => match b? a, b? b, b? c with
+    | some a, some b, some c => some ⟨a, b, c⟩
+    | _, _, _ => none
+  | _ => none
+
+/-- a header of any of the seven classes, as built by the harness on that class
+    (MGH header spec: `a=<A>`, the header of `MGHImage(data, A)`) -/
+inductive AnyHdr where
+  | n (h : NHdr)
+  | a (k : AKind) (h : AHdr)
+  | m (h : MHdr)
+  | keyError
+
 def parseMHdr? (E : Ext) (dims : V3 Rat) (s : String) : Option (Option MHdr) :=
   if s = "-" then some none else
   if s.startsWith "a=" then
     (parseAff? (s.drop 2).toString).map (fun a => some ((defaultMHdr dims).updateHeader E a))
   else none
 
-def parseMode? (s : String) : Option MatMode :=
-  if s = "both" then some .both else if s = "monly" then some .mOnly else if s = "none" then some .none
+def parseAnyHdr? (cls : String) (shape : List Nat) (spec : String) : Option AnyHdr :=
+  if spec = "-" then none else
+  let nif (E : Ext) : Option AnyHdr :=
+    match parseNHdr? E shape spec with
+    | some (.hdr h) => some (.n h)
+    | some .keyError => some .keyError
+    | _ => none
+  let ana (k : AKind) : Option AnyHdr :=
+    match parseAHdr? shape spec with
+    | some (some h) => some (.a k h)
+    | _ => none
+  if cls = "N1" || cls = "N1P" then nif (mkExt roundF32)
+  else if cls = "N2" then nif (mkExt id)
+  else if cls = "AN" then ana .analyze
+  else if cls = "S99" || cls = "S2" then ana .spm
+  else if cls = "MGH" then
+    if shape.length < 3 then none else
+    match parseMHdr? (mkExt roundF32) (natsToV3 shape 1) spec with
+    | some (some h) => some (.m h)
+    | _ => none
   else none
 
-def rtNifti (E : Ext) (f : NFmt) (shape : List Nat) (a : Aff Rat) (hs : String) : String :=
-  match parseNHdr? E shape hs with
-  | none => "bad-op"
-  | some .keyError => "ERR:KeyError"
-  | some spec =>
+/-- split `<srccls>@<spec>`; a spec without `@` is a header of the image's own class -/
+def splitSrc (cls hs : String) : String × String :=
+  match hs.splitOn "@" with
+  | [x, spec] => (x, spec)
+  | _ => (cls, hs)
+
+def rtNifti (cls : String) (E : Ext) (f : NFmt) (shape : List Nat) (a : Aff Rat) (hs : String) : String :=
+  let (src, spec) := splitSrc cls hs
+  let own := (src = cls)
+  let conv : Option (Option HdrSpec) :=
+    if spec = "-" then (if own then some (some .noHeader) else none)
+    else match parseAnyHdr? src shape spec with
+      | none => none
+      | some .keyError => some (some .keyError)
+      | some (.n h) => some (some (.hdr (if own then h else h.convertN E.rnd)))
+      | some (.a _ h) => some (some (.hdr (NHdr.ofZooms E.rnd shape h.pixdim)))
+      | some (.m h) => some (some (.hdr (NHdr.ofZooms E.rnd shape h.f.delta)))
+  match conv with
+  | none | some none => "bad-op"
+  | some (some .keyError) => "ERR:KeyError"
+  | some (some spec) =>
     let hdr : Option NHdr := match spec with | .hdr h => some h | _ => none
     match niftiRoundtrip E f shape a hdr with
     | .error e => showErr e
     | .ok o => "aff=" ++ showAff o.affine ++ " s=" ++ showCoded o.sform ++ " q=" ++ showCoded o.qform
 
-def rtAnalyze (E : Ext) (k : AKind) (shape : List Nat) (a : Aff Rat) (hs : String) (mode : MatMode) : String :=
-  match parseAHdr? shape hs with
+def rtAnalyze (cls : String) (E : Ext) (k : AKind) (fl : Flips) (shape : List Nat) (a : Aff Rat) (hs : String)
+    (mode : MatMode) : String :=
+  let (src, spec) := splitSrc cls hs
+  let own := (src = cls)
+  let z0 : V3 Int := ⟨0, 0, 0⟩
+  let conv : Option (Except Unit (Option AHdr)) :=
+    if spec = "-" then (if own then some (.ok none) else none)
+    else match parseAnyHdr? src shape spec with
+      | none => none
+      | some .keyError => some (.error ())
+      | some (.n h) => some (.ok (some (AHdr.ofZooms E.rnd shape h.pixdim z0)))
+      | some (.a kx h) =>
+          some (.ok (some (if own then h else AHdr.ofZooms E.rnd shape h.pixdim (if kx = .spm && k = .spm then h.origin else z0))))
+      | some (.m h) => some (.ok (some (AHdr.ofZooms E.rnd shape h.f.delta z0)))
+  match conv with
   | none => "bad-op"
-  | some hdr =>
-    let o := analyzeRoundtrip E k shape a hdr mode
+  | some (.error _) => "ERR:KeyError"
+  | some (.ok hdr) =>
+    let o := analyzeRoundtrip E k fl shape a hdr mode
     "aff=" ++ showAff o.affine ++ " z=" ++ showV3 o.pixdim
 
 def rtMgh (E : Ext) (shape : List Nat) (a : Aff Rat) (hs : String) : String :=
   if shape.length < 3 then "bad-op" else
   let dims := natsToV3 shape 1
-  match parseMHdr? E dims hs with
+  let (src, spec) := splitSrc "MGH" hs
+  -- a header of another class is ignored by `MGHHeader.from_header`: the default header is used
+  let hdr? : Option (Except Unit (Option MHdr)) :=
+    if src = "MGH" then (parseMHdr? E dims spec).map .ok
+    else if spec = "-" then none
+    else match parseAnyHdr? src shape spec with
+      | none => none
+      | some .keyError => some (.error ())
+      | some _ => some (.ok none)
+  match hdr? with
   | none => "bad-op"
-  | some hdr =>
+  | some (.error _) => "ERR:KeyError"
+  | some (.ok hdr) =>
     let (aff, f) := mghRoundtrip E dims a hdr
     "aff=" ++ showAff aff ++ " delta=" ++ showV3 f.delta ++ " mdc=" ++ showM33 f.mdc ++ " c=" ++ showV3 f.pxyzC
 
 def handle : List String → String
-  | ["rt", cls, shape, a, hdr, mode] =>
-      match parseNatList? shape, parseAff? a, parseMode? mode with
-      | some shape, some a, some mode =>
+  | ["rt", cls, shape, a, hdr, mode, flips] =>
+      match parseNatList? shape, parseAff? a, parseMode? mode, parseFlips? flips with
+      | some shape, some a, some mode, some fl =>
         if shape.isEmpty then "bad-op"
-        else if cls = "N1" || cls = "N1P" then rtNifti (mkExt roundF32) fmtN1 shape a hdr
-        else if cls = "N2" then rtNifti (mkExt id) fmtN2 shape a hdr
-        else if cls = "AN" then rtAnalyze (mkExt roundF32) .analyze shape a hdr mode
-        else if cls = "S99" || cls = "S2" then rtAnalyze (mkExt roundF32) .spm shape a hdr mode
+        -- the NIfTI and MGH flows are modelled for the default `default_x_flip` only
+        else if (cls = "N1" || cls = "N1P" || cls = "N2" || cls = "MGH") && fl != Flips.dflt then "bad-op"
+        else if cls = "N1" || cls = "N1P" then rtNifti cls (mkExt roundF32) fmtN1 shape a hdr
+        else if cls = "N2" then rtNifti cls (mkExt id) fmtN2 shape a hdr
+        else if cls = "AN" then rtAnalyze cls (mkExt roundF32) .analyze fl shape a hdr mode
+        else if cls = "S99" || cls = "S2" then rtAnalyze cls (mkExt roundF32) .spm fl shape a hdr mode
         else if cls = "MGH" then rtMgh (mkExt roundF32) shape a hdr
         else "bad-op"
-      | _, _, _ => "bad-op"
+      | _, _, _, _ => "bad-op"
   | ["hq", cls, a, code] =>
       -- header level: `hdr.set_qform(A, code); hdr.get_qform(coded=True)`
       match parseAff? a, parseCodeTok? code with
